@@ -69,6 +69,20 @@ def rule_remove_precondition(ctx):
         cs = _conds(f, n)
         ok = ("pc->Is(CT_BRACE_CLOSE)", True) in cs and ("semi_count > 0", True) in cs and ("pc->IsNullChunk()", False) in cs
         r.check(ok, "examine_brace/%s(%s)" % (n["c"].split("::")[-1], expr_str(f, n["a"][0])), db.loc(f, n), "brace removal under %s" % cs)
+    # dangling else: the token examined for `else` after the closing brace is a real token - every virtual brace close of the
+    # enclosing brace-less statements has been stepped over (a loop: its exit fact `next->Is(CT_VBRACE_CLOSE)` false holds at the
+    # test) - and an `else` there blocks the removal whenever the block contains an `if`
+    else_tests = [(b, blk) for b, blk in f.blocks.items() if blk.get("term") and expr_str(f, blk["term"].get("lc", blk["term"].get("c"))) in ("next->Is(CT_ELSE)", "next->Is(CT_ELSEIF)")]
+    r.check(len(else_tests) >= 2, "examine_brace/looks-for-else", db.loc(f, f.l0), "examine_brace no longer tests the token after the closing brace for else / else if")
+    for b, blk in else_tests:
+        cs = [(expr_str(f, cn), pol) for cn, pol in f.guard_conds(b) if cn is not None]
+        what = expr_str(f, blk["term"].get("lc", blk["term"].get("c")))
+        r.check(("next->Is(CT_VBRACE_CLOSE)", False) in cs, "examine_brace/else-test-on-real-token/%s" % what, db.loc(f, blk["term"]["l"]),
+                "`%s` is evaluated on a token that may still be a virtual brace close (only a loop over CT_VBRACE_CLOSE establishes the "
+                "fact): with two or more enclosing brace-less statements the `else` is not seen, the braces go and the else re-binds" % what)
+        r.check(("if_count > 0", True) in cs, "examine_brace/else-test-when-body-has-if/%s" % what, db.loc(f, blk["term"]["l"]), "the else test is no longer made under if_count > 0: %s" % cs)
+    bail = [n for n in f.all_nodes() if n["k"] == "ret" and any(c.startswith("if_count > 0 && next->Is(CT_ELSE)") and pol is True for c, pol in _conds(f, n))]
+    r.check(len(bail) >= 1, "examine_brace/else-blocks-removal", db.loc(f, f.l0), "finding else after the block no longer returns before the removal")
     # the scan loop bails out on a second statement
     rets = [n for n in f.all_nodes() if n["k"] == "ret" and ("semi_count > 1", True) in _conds(f, n)]
     r.check(len(rets) >= 1, "examine_brace/bails-on-second-statement", db.loc(f, f.l0), "the scan no longer returns when semi_count > 1")
